@@ -902,3 +902,82 @@ PULSE 1 "frame1" flat(iq: 1, duration: 4e-9)
 "#
     }
 }
+
+/// Verification hook (add-only, compiled only with `--cfg rigetti_quil_rs_verif`): thin wrappers that
+/// drive the real [`DependencyQueue`] with caller-supplied access sequences, so that an external
+/// correspondence harness can compare the dependencies it reports with a proved model.
+#[cfg(rigetti_quil_rs_verif)]
+pub(crate) mod verif_dependency_queue {
+    use super::dependency_queue::DependencyQueue;
+    use super::{InstructionFrameInteraction, MemoryAccessType, ScheduledGraphNode};
+
+    /// The real `DependencyQueue<MemoryAccessType>` (one memory region).
+    pub struct MemoryQueue(DependencyQueue<MemoryAccessType>);
+
+    impl Default for MemoryQueue {
+        fn default() -> Self {
+            Self::new()
+        }
+    }
+
+    impl MemoryQueue {
+        pub fn new() -> Self {
+            Self(DependencyQueue::new())
+        }
+
+        /// `record_access_and_get_dependencies`; dependencies as `(access type, node)`, unordered.
+        pub fn record(
+            &mut self,
+            node: ScheduledGraphNode,
+            access_type: MemoryAccessType,
+        ) -> Vec<(MemoryAccessType, ScheduledGraphNode)> {
+            self.0
+                .record_access_and_get_dependencies(node, access_type)
+                .into_iter()
+                .map(|dependency| (dependency.access_type, dependency.node_id))
+                .collect()
+        }
+
+        /// `into_pending_dependencies`, unordered.
+        pub fn into_pending(self) -> Vec<(MemoryAccessType, ScheduledGraphNode)> {
+            self.0
+                .into_pending_dependencies()
+                .into_iter()
+                .map(|dependency| (dependency.access_type, dependency.node_id))
+                .collect()
+        }
+    }
+
+    /// The real `DependencyQueue<InstructionFrameInteraction>` (one frame).
+    pub struct FrameQueue(DependencyQueue<InstructionFrameInteraction>);
+
+    impl Default for FrameQueue {
+        fn default() -> Self {
+            Self::new()
+        }
+    }
+
+    impl FrameQueue {
+        pub fn new() -> Self {
+            Self(DependencyQueue::new())
+        }
+
+        /// `record_access_and_get_dependencies` with `Using` (`using == true`) or `Blocking`.
+        pub fn record(&mut self, node: ScheduledGraphNode, using: bool) -> Vec<ScheduledGraphNode> {
+            let interaction = if using {
+                InstructionFrameInteraction::Using
+            } else {
+                InstructionFrameInteraction::Blocking
+            };
+            self.0
+                .record_access_and_get_dependencies(node, interaction)
+                .into_iter()
+                .collect()
+        }
+
+        /// `into_pending_dependencies`, unordered.
+        pub fn into_pending(self) -> Vec<ScheduledGraphNode> {
+            self.0.into_pending_dependencies().into_iter().collect()
+        }
+    }
+}
